@@ -229,6 +229,9 @@ pub fn run_case(case: &Case) -> Outcome {
                     if c0s == c1 {
                         return Err(("C11 pipe-zinc value changed [non-finite number loses its unit]".into(), format!("{} (first encoding {:?})", canon_diff(&c0, &c1), clip(&t1_ref))));
                     }
+                    if canon(&strip_subminute_offset_timestamps(&strip_nonfinite_units(&v0))) == canon(&strip_subminute_offset_timestamps(&v1)) {
+                        return Err(("C11 pipe-zinc value changed [timestamp with a sub-minute zone offset moves]".into(), format!("{} (first encoding {:?})", canon_diff(&c0s, &c1), clip(&t1_ref))));
+                    }
                     return Err((format!("C11 pipe-zinc value changed [{}]", diff_class(&c0s, &c1)), format!("{} (first encoding {:?})", canon_diff(&c0s, &c1), clip(&t1_ref))));
                 }
                 let t2 = to_zinc_string(&v1).map_err(|e| ("C11 pipe-zinc second encoding failed".to_string(), e.to_string()))?;
@@ -257,6 +260,9 @@ pub fn run_case(case: &Case) -> Outcome {
                 };
                 let c1 = canon(&v1);
                 if c0 != c1 {
+                    if canon(&strip_subminute_offset_timestamps(&v0)) == canon(&strip_subminute_offset_timestamps(&v1)) {
+                        return Err(("C11 pipe-json value changed [timestamp with a sub-minute zone offset moves]".into(), format!("{} (first encoding {:?})", canon_diff(&c0, &c1), clip(&t1s))));
+                    }
                     return Err((format!("C11 pipe-json value changed [{}]", diff_class(&c0, &c1)), format!("{} (first encoding {:?})", canon_diff(&c0, &c1), clip(&t1s))));
                 }
                 // the other entry points must agree with the reader
@@ -398,30 +404,47 @@ fn diff_class(c0: &str, c1: &str) -> String {
 /// unit when decoded, and Zinc has no spelling for a non-finite number with a unit. This returns
 /// the value with those units removed, so that the finding is reported under its own signature
 /// and never hides another difference in the same document.
-fn strip_nonfinite_units(v: &Value) -> Value {
+/// Rebuilds a value with every leaf passed through `f` (`Some` replaces it).
+fn map_leaves(v: &Value, f: &dyn Fn(&Value) -> Option<Value>) -> Value {
+    let md = |d: &Dict| -> Dict {
+        let mut out = Dict::new();
+        for (k, x) in d.iter() {
+            out.insert(k.clone(), map_leaves(x, f));
+        }
+        out
+    };
     match v {
-        Value::Number(n) if !n.value.is_finite() && n.unit.is_some() => Value::make_number(n.value),
-        Value::List(l) => Value::make_list(l.iter().map(strip_nonfinite_units).collect()),
-        Value::Dict(d) => Value::make_dict(strip_dict(d)),
+        Value::List(l) => Value::make_list(l.iter().map(|x| map_leaves(x, f)).collect()),
+        Value::Dict(d) => Value::make_dict(md(d)),
         Value::Grid(g) => {
             let mut g2 = g.clone();
-            g2.meta = g.meta.as_ref().map(strip_dict);
+            g2.meta = g.meta.as_ref().map(&md);
             for c in g2.columns.iter_mut() {
-                c.meta = c.meta.as_ref().map(strip_dict);
+                c.meta = c.meta.as_ref().map(&md);
             }
-            g2.rows = g.rows.iter().map(strip_dict).collect();
+            g2.rows = g.rows.iter().map(&md).collect();
             Value::make_grid(g2)
         }
-        other => other.clone(),
+        other => f(other).unwrap_or_else(|| other.clone()),
     }
 }
 
-fn strip_dict(d: &Dict) -> Dict {
-    let mut out = Dict::new();
-    for (k, v) in d.iter() {
-        out.insert(k.clone(), strip_nonfinite_units(v));
-    }
-    out
+fn strip_nonfinite_units(v: &Value) -> Value {
+    map_leaves(v, &|x| match x {
+        Value::Number(n) if !n.value.is_finite() && n.unit.is_some() => Some(Value::make_number(n.value)),
+        _ => None,
+    })
+}
+
+/// Timestamps whose zone offset at that instant is not a whole number of minutes (local mean
+/// time before the zone adopted standard time, e.g. -07:52:58) replaced by a constant: the
+/// known finding about them is recognised by "equal once these are taken out".
+fn strip_subminute_offset_timestamps(v: &Value) -> Value {
+    use chrono::Offset;
+    map_leaves(v, &|x| match x {
+        Value::DateTime(dt) if dt.offset().fix().local_minus_utc() % 60 != 0 => Some(Value::make_str("<timestamp with a sub-minute zone offset>")),
+        _ => None,
+    })
 }
 
 /// lazy-rows: equality with the contiguous run, consumption bound per yield, availability.
@@ -549,8 +572,8 @@ impl C11 {
     fn sizes(&self) -> (usize, usize) {
         // (search units, cases per unit)
         match self.ctx.tier {
-            Tier::Quick => (128, 2500),
-            Tier::Thorough => (1280, 6000),
+            Tier::Quick => (256, 8000),
+            Tier::Thorough => (2048, 20000),
         }
     }
 }
